@@ -96,6 +96,19 @@ def flip_case(rng, name):
     return bytes((b ^ 0x20) if (65 <= (b & 0xdf) <= 90 and rng.random() < 0.5) else b for b in name)
 
 
+def flip_suffix_case(rng, name, n):
+    """change letter case only in the last `n` characters (the topdomain part of a tunnel name): the data part stays byte-identical"""
+    if n <= 0 or n > len(name):
+        return name
+    head, tail = name[:-n], bytearray(name[-n:])
+    idx = [i for i, c in enumerate(tail) if 65 <= (c & 0xdf) <= 90]
+    if not idx:
+        return name
+    for i in rng.sample(idx, rng.randrange(1, len(idx) + 1)):
+        tail[i] ^= 0x20
+    return head + bytes(tail)
+
+
 class Cl:
     """generator-side view of one client"""
 
@@ -266,7 +279,7 @@ class Gen:
         if self.rng.random() < 0.1:
             kw = {"dn_seq": self.rng.randrange(8), "dn_frag": self.rng.randrange(16)}
         name = cl.c.ping(**kw)
-        st = self.q(cl, name, id_=self.dnsid(), meta={"kind": "P"})
+        st = self.q(cl, name, id_=self.dnsid(), meta={"kind": "P", "ack": (kw.get("dn_seq", cl.c.dn_seq) & 7, kw.get("dn_frag", cl.c.dn_frag) & 15)})
         if st:
             cl.sent.append(st)
 
@@ -303,7 +316,7 @@ class Gen:
         cl.c.maxlen = maxlen
         name, n = cl.c.data(img[off:] or b"\0", last=None if r > 0.05 else self.rng.randrange(2))
         cl.c.maxlen = 255
-        st = self.q(cl, name, meta={"kind": "D", "image": img, "off": off, "n": n})
+        st = self.q(cl, name, meta={"kind": "D", "image": img, "off": off, "n": n, "ack": (cl.c.dn_seq & 7, cl.c.dn_frag & 15)})
         if st:
             cl.sent.append(st)
             if self.rng.random() < (0.5 if cl.lazy else 0.15):
@@ -324,7 +337,7 @@ class Gen:
         how = self.rng.random()
         id_ = m["id"] if how < 0.3 else self.dnsid(zero_ok=False)
         if self.rng.random() < 0.3:
-            name = flip_case(self.rng, name)
+            name = flip_case(self.rng, name) if self.rng.random() < 0.6 else flip_suffix_case(self.rng, name, len(self.td))
         src = m["src"]
         if self.rng.random() < 0.25:
             src = addr(cl.ip, cl.port + 1, cl.fam)          # another relay port, same host
@@ -334,6 +347,25 @@ class Gen:
         if self.rng.random() < 0.1:
             qtype = self.rng.choice([t for t in QTYPES if t != qtype])      # same name asked with another record type
         self.q(cl, name, qtype=qtype, id_=id_, src=src, meta={"kind": "redeliver", "orig": st0, "case": name != m["name"]})
+
+    def act_redeliver_stale_ack(self, cl):
+        """re-deliver an OLD query of `cl` whose ack fields (3-bit sequence number, fragment) happen to name the downstream fragment that is in
+        flight right now - a repeat must not acknowledge it.  Returns True if one was found."""
+        sl = self.h.steps[-1].slots.get(cl.c.userid) if self.h.steps and self.h.steps[-1].slots else None
+        if not sl:
+            return False
+        o = sl["out"].split("/")          # len/offset/sentlen/seqno/fragment/sum
+        if o[0] == "0" or o[2] == "0":
+            return False
+        want = (int(o[3]) & 7, int(o[4]) & 15)
+        cands = [st for st in cl.sent[:-2] if st.meta.get("ack") == want]
+        if not cands:
+            return False
+        st0 = self.rng.choice(cands[-6:])
+        m = st0.meta
+        self.q(cl, m["name"], qtype=m["qtype"], id_=self.dnsid(zero_ok=False) if self.rng.random() < 0.7 else m["id"], src=m["src"],
+               meta={"kind": "redeliver-stale-ack", "orig": st0, "case": False})
+        return True
 
     def act_redeliver_held(self):
         """an impatient relay repeats a query the server is still holding (q or q_sendrealsoon), right now"""
@@ -355,7 +387,8 @@ class Gen:
         soon = [c for c in cands if c[1].meta["id"] in heldqs]
         cl, st0 = self.rng.choice(soon) if soon and self.rng.random() < 0.7 else self.rng.choice(cands)
         m = st0.meta
-        name = m["name"] if self.rng.random() < 0.8 else flip_case(self.rng, m["name"])
+        r = self.rng.random()
+        name = m["name"] if r < 0.7 else (flip_case(self.rng, m["name"]) if r < 0.82 else flip_suffix_case(self.rng, m["name"], len(self.td)))
         src = m["src"] if self.rng.random() < 0.6 else addr(cl.ip, cl.port + 1, cl.fam)
         qtype = m["qtype"] if self.rng.random() < 0.85 else self.rng.choice([t for t in QTYPES if t != m["qtype"]])
         self.q(cl, name, qtype=qtype, id_=self.dnsid(zero_ok=False), src=src, meta={"kind": "redeliver-held", "orig": st0})
@@ -489,6 +522,14 @@ class Gen:
                     self.act_ping(cl)
         else:
             self.advance(self.rng.choice([60, 61, 62, 120]))
+            # somebody replays a recorded raw login of a session that has just expired (from its old address or from elsewhere)
+            for cl in self.clients:
+                if cl.versioned and self.rng.random() < 0.3:
+                    src = cl.src if self.rng.random() < 0.5 else addr(cl.ip ^ 0x300, cl.port, cl.fam)
+                    self.h.send("dns %s %s" % (src, vlib.hx(cl.c.raw_login())), {"client": cl, "kind": "rawlogin", "good": True, "src": src, "after_expiry": True})
+                    if self.rng.random() < 0.5:
+                        img = self.packet_image(cl)
+                        self.h.send("dns %s %s" % (src, vlib.hx(cl.c.raw_frame(0x20, img))), {"client": cl, "kind": "rawdata", "image": img})
 
     # ---- a whole run
     def scenario_lazy_repeats(self):
@@ -605,12 +646,65 @@ class Gen:
             msg = P.header(self.dnsid(), 0x0100, 1, 0) + b"\x03abc" + bytes([0xc0, 12 + 4 + 2 + 4]) + struct.pack(">HH", 2, 1) + w
             self.h.send("dns %s %s" % (src, vlib.hx(msg)), {"kind": "hostile"})
 
+    def _login(self, cl):
+        st = self.q(cl, cl.c.login(), meta={"kind": "L", "good": True})
+        for e in (st.events if st else []):
+            if e[0] == "ans" and vlib.unhx(e[6]).count(b"-") == 3:
+                cl.authed = True
+                try:
+                    cl.tun_ip = struct.unpack(">I", bytes(int(x) for x in vlib.unhx(e[6]).split(b"-")[1].split(b".")))[0]
+                except Exception:
+                    pass
+        return cl.authed
+
+    def scenario_downstream_wrap(self):
+        """a scripted opening: one client receives MANY downstream packets of 1..3 fragments and acks each fragment properly, so that the 3-bit
+        downstream sequence number wraps while old queries (which carry old acks) are still remembered; old queries are re-delivered at the
+        moments a fragment is in flight"""
+        self.act_new_client()
+        cl = self.clients[-1]
+        if not cl.versioned:
+            return
+        cl.qtype = T["NULL"]
+        if not self._login(cl) or not cl.tun_ip:
+            return
+        if self.rng.random() < 0.6:
+            self.q(cl, cl.c.option(b"l"), meta={"kind": "O"}); cl.lazy = True
+        self.act_ping(cl)
+        fs = 100
+        for k in range(self.rng.randrange(10, 22)):
+            if self.h.dead:
+                return
+            n = self.rng.choice([20, 60, fs - 25, fs + 30, 2 * fs - 25, 2 * fs + 40])
+            frame = C.ip_packet(cl.tun_ip, bytes(self.rng.randrange(256) for _ in range(max(0, n))))
+            self.h.send("tun " + vlib.hx(frame), {"kind": "tun", "dst": cl.tun_ip, "frame": frame})
+            for _ in range(4):
+                # the client acks what it has seen (observe() tracks dn_seq/dn_frag from the answers) with a ping or an upstream fragment
+                if self.rng.random() < 0.7:
+                    self.act_ping(cl)
+                else:
+                    self.act_data(cl)
+                if self.rng.random() < 0.6 and self.act_redeliver_stale_ack(cl):
+                    pass
+                elif self.rng.random() < 0.2 and len(cl.sent) > 6:
+                    # an old query (old ack fields) turns up again while the next fragment may be in flight
+                    st0 = self.rng.choice(cl.sent[-14:-3])
+                    m = st0.meta
+                    self.q(cl, m["name"], qtype=m["qtype"], id_=self.dnsid(zero_ok=False) if self.rng.random() < 0.7 else m["id"], src=m["src"],
+                           meta={"kind": "redeliver", "orig": st0, "case": False})
+                sl = self.h.steps[-1].slots.get(cl.c.userid) if self.h.steps and self.h.steps[-1].slots else None
+                if sl and sl["out"].split("/")[0] == "0":
+                    break
+
     def run(self, nsteps, hostile=0.0):
         rng = self.rng
         if self.matrix:
             self.scenario_bytes_matrix()
-        if rng.random() < 0.5:
+        r0 = rng.random()
+        if r0 < 0.4:
             self.scenario_lazy_repeats()
+        elif r0 < 0.6:
+            self.scenario_downstream_wrap()
         for _ in range(nsteps):
             if self.h.dead:
                 break
@@ -637,8 +731,10 @@ class Gen:
                 self.act_data(rng.choice(authed))
             elif r < 0.66 and authed:
                 self.act_redeliver(rng.choice(authed))
-            elif r < 0.70 and authed:
+            elif r < 0.68 and authed:
                 self.act_redeliver_held()
+            elif r < 0.70 and authed:
+                self.act_redeliver_stale_ack(rng.choice(authed))
             elif r < 0.79:
                 self.act_tun()
             elif r < 0.83 and live:
